@@ -89,7 +89,7 @@ impl UnionCal {
 /// struct seeks to be related to named calendar combinations and not an inefficient list of dates.
 #[pyclass(module = "rateslib.rs")]
 #[derive(Clone, Debug, Serialize, Deserialize)]
-#[serde(from = "NamedCalDataModel")]
+#[serde(try_from = "NamedCalDataModel")]
 pub struct NamedCal {
     pub(crate) name: String,
     #[serde(skip)]
@@ -101,9 +101,11 @@ struct NamedCalDataModel {
     name: String,
 }
 
-impl std::convert::From<NamedCalDataModel> for NamedCal {
-    fn from(model: NamedCalDataModel) -> Self {
-        Self::try_new(&model.name).expect("NamedCal data model contains bad data.")
+impl std::convert::TryFrom<NamedCalDataModel> for NamedCal {
+    type Error = String;
+
+    fn try_from(model: NamedCalDataModel) -> Result<Self, Self::Error> {
+        Self::try_new(&model.name).map_err(|_| "NamedCal data model contains bad data.".to_string())
     }
 }
 
